@@ -96,6 +96,10 @@ def gen_cases(ctx):
         # worker-side out-state computations that take 0.3-0.8 s (still in flight when their handler is trashed)
         for k in range(4):
             cases.append(slow_case(rng, SLOW_CFGS[k % len(SLOW_CFGS)], [3, 6, 4, 5][k]))
+        # exactly coinciding candidate times (finding F11), both schedulers
+        for sched, cores, end in (("heap_scheduler", 4, "2.3"), ("heap_scheduler", 2, "2.3"), ("list_scheduler", 4, "2.3"),
+                                  ("heap_scheduler", 6, "2.0"), ("list_scheduler", 3, "2.0")):
+            cases.append(tie_case(rng, sched, cores, end))
     else:
         names = list(CONFIGS_A)
         for i in range(150):
@@ -107,6 +111,10 @@ def gen_cases(ctx):
             cases.append(pause_case(rng, rng.choice(PAUSE_CFGS), rng.choice([2, 2, 3, 3, 4, 6])))
         for k in range(16):
             cases.append(slow_case(rng, SLOW_CFGS[k % len(SLOW_CFGS)], rng.choice([3, 3, 4, 5, 6, 6])))
+        for k in range(24):
+            cases.append(tie_case(rng, rng.choice(["heap_scheduler", "list_scheduler"]), rng.choice([2, 3, 4, 6]),
+                                  rng.choice(["2.3", "2.0", "3.1"]),
+                                  rng.choice(["dipoles_atom_factors-coulomb_4dipoles", "dipoles_atom_factors-coulomb"])))
         namesb = list(CONFIGS_B)
         for i in range(50):
             cases.append(dict(cfg=namesb[i % len(namesb)], scope="B", stream="call", seed=rng.randrange(1, 10 ** 6),
@@ -139,9 +147,77 @@ def slow_case(rng, name, cores):
                 slow_out=dict(SLOW_SPEC, seed=rng.randrange(10 ** 6)))
 
 
+def tie_case(rng, sched, cores, end="2.3", cfg="dipoles_atom_factors-coulomb_4dipoles"):
+    """Exactly coinciding candidate times (finding F11): sampling interval = chain time = 0.5 (dyadic: the times agree
+    bit for bit at 0.5, 1.0, ...); with end = "2.0" the end of the run ties as well."""
+    return dict(cfg=cfg, scope="A", stream="handler", seed=rng.randrange(1, 10 ** 6), cores=cores,
+                delay_seed=rng.randrange(10 ** 6), max_delay_ms=3.0, ties=True, timeout=90,
+                extra_set=[[EOR, "end_of_run_time", end],
+                           ["FixedIntervalSamplingEventHandler", "sampling_interval", "0.5"],
+                           ["SingleIndependentActivePeriodicDirectionEndOfChainEventHandler", "chain_time", "0.5"],
+                           ["SingleProcessMediator", "scheduler", sched]])
+
+
+def commit_records(events):
+    """[handler, time, out-state digest, write-or-None] per commit (the write of a mediating method follows its commit)"""
+    recs = []
+    for e in events:
+        if e[0] == "commit":
+            recs.append([e[1], e[2], e[3], None])
+        elif e[0] == "write" and recs:
+            recs[-1][3] = [e[1], e[2]]
+    return recs
+
+
+def compare_with_ties(s, m):
+    """Finding F11 classification.  Returns (instances, failure message or None).  Outside groups of commits with
+    bit-identical times the two runs must agree record for record (handler, time, out-state, write).  A maximal group
+    of consecutive commits at one bit-identical time may list the same handlers in a different order (F11); inside such
+    a group out-state digests and sample contents are not compared (the sampled state depends on whether the
+    end-of-chain event of the same instant was committed before); if the end-of-run handler is in the group the
+    comparison stops there (it may cut the other events of that instant off)."""
+    a, b = commit_records(s["events"]), commit_records(m["events"])
+    names = [h[0] for h in s["handlers"]]
+    inst = []
+    k = 0
+    while k < min(len(a), len(b)):
+        if a[k] == b[k]:
+            k += 1
+            continue
+        t = a[k][1]
+        if b[k][1] != t:
+            return inst, "commit %d: single %s multi %s (different times)" % (k, a[k][:2], b[k][:2])
+        # the group may have begun earlier with records that happened to agree
+        k0 = k
+        while k0 > 0 and a[k0 - 1][1] == t and b[k0 - 1][1] == t:
+            k0 -= 1
+        na = next((i for i in range(k0, len(a)) if a[i][1] != t), len(a)) - k0
+        nb = next((i for i in range(k0, len(b)) if b[i][1] != t), len(b)) - k0
+        ga, gb = [x[0] for x in a[k0:k0 + na]], [x[0] for x in b[k0:k0 + nb]]
+        has_end = any("EndOfRun" in names[h] for h in ga + gb)
+        if len(ga) > 1 or len(gb) > 1:
+            if sorted(ga) == sorted(gb) and ga != gb:
+                inst.append({"commit": k0, "time": t, "single": ga, "multi": gb})
+                k = k0 + na
+                continue
+            if has_end and (ga != gb):
+                inst.append({"commit": k0, "time": t, "single": ga, "multi": gb, "end_of_run_in_group": True})
+                return inst, None
+        return inst, "commit %d: single %s multi %s (not a permutation of simultaneous events: %s vs %s)" % (
+            k, a[k], b[k], ga, gb)
+    if not inst and len(a) != len(b):
+        return inst, "different numbers of commits: %d vs %d" % (len(a), len(b))
+    if inst and len(a) != len(b) and not inst[-1].get("end_of_run_in_group"):
+        return inst, "different numbers of commits after a tie: %d vs %d" % (len(a), len(b))
+    return inst, None
+
+
 def payload(case, mediator):
     cfg = (CONFIGS_A if case["scope"] == "A" else CONFIGS_B)[case["cfg"]]
     p = dict(cfg)
+    if case.get("extra_set"):
+        keys = {(a, b) for a, b, _ in case["extra_set"]}
+        p["set"] = [x for x in p.get("set", []) if (x[0], x[1]) not in keys] + [list(x) for x in case["extra_set"]]
     p.update(mediator=mediator, seed=case["seed"], stream=case["stream"], timeout=case.get("timeout", 150))
     if mediator == "multi":
         p.update(cores=case["cores"], delay_seed=case["delay_seed"], max_delay_ms=case["max_delay_ms"])
@@ -156,7 +232,7 @@ def run_all(ctx, cases):
     """Runs one single-process run per (cfg, seed, stream) and one multi-process run per case."""
     skeys, spl = [], []
     for c in cases:
-        k = (c["cfg"], c["scope"], c["seed"], c["stream"])
+        k = (c["cfg"], c["scope"], c["seed"], c["stream"], json.dumps(c.get("extra_set")))
         if k not in skeys:
             skeys.append(k)
             spl.append(payload(c, "single"))
@@ -309,10 +385,16 @@ def oracle(case, s, m):
         if bad:
             excl.append("out-state computation of handlers %s (no out-state arguments) draws random numbers: "
                         "outside the property's quantifier" % bad)
-    ties, notmin = min_ties(s["events"])
-    if ties:
-        excl.append("%d scheduler picks with a non-unique minimal candidate time" % ties)
     if excl:
+        return fails, excl
+    ties, notmin = min_ties(s["events"])
+    if ties or case.get("ties"):
+        inst, msg = compare_with_ties(s, m)
+        if msg:
+            fails.append("runs with exactly coinciding candidate times differ by more than the order of simultaneous "
+                         "events: " + msg)
+        else:
+            excl.append(["F11", inst, ties])
         return fails, excl
     cs, cm = commits_writes(s["events"]), commits_writes(m["events"])
     if cs != cm:
@@ -352,12 +434,12 @@ def run(ctx, cases_override=None):
     single, multi = run_all(ctx, cases)
     ids = Ids()
     terms, owner = [], []
-    fails, exclusions, f7 = [], [], []
+    fails, exclusions, f7, tie_runs = [], [], [], []
     stats = dict(commits=0, ahead_received=0, ahead_used=0, ahead_discarded=0, trash_in_oss=0, batches=0,
                  batches_gt1=0, distinct_schedules=set(), cores={}, legs=0)
     done_single = set()
     for ci, (case, m) in enumerate(zip(cases, multi)):
-        k = (case["cfg"], case["scope"], case["seed"], case["stream"])
+        k = (case["cfg"], case["scope"], case["seed"], case["stream"], json.dumps(case.get("extra_set")))
         s = single[k]
         f, ex = oracle(case, s, m)
         if f:
@@ -365,6 +447,9 @@ def run(ctx, cases_override=None):
             continue
         if ex == ["F7"]:
             f7.append(ci)
+            continue
+        if ex and isinstance(ex[0], list) and ex[0][0] == "F11":
+            tie_runs.append((ci, ex[0][1], ex[0][2]))
             continue
         if ex:
             exclusions.append((ci, ex))
@@ -408,7 +493,7 @@ def run(ctx, cases_override=None):
 
     def rep(ci, extra):
         case = cases[ci]
-        k = (case["cfg"], case["scope"], case["seed"], case["stream"])
+        k = (case["cfg"], case["scope"], case["seed"], case["stream"], json.dumps(case.get("extra_set")))
         d = {"kind": "c20-cases", "cases": [case], "single": trim(single[k]), "multi": trim(multi[ci])}
         d.update(extra)
         return d
@@ -421,6 +506,16 @@ def run(ctx, cases_override=None):
             C.known(ctx, "F7", what)
         else:
             ctx.notes.append("finding F7 (not listed in known_findings.json, outside the property's quantifier): " + what)
+    f11 = [(ci, i) for ci, inst, _ in tie_runs for i in inst]
+    if f11:
+        ci, i = f11[0]
+        C.known(ctx, "F11", "%d group(s) of exactly simultaneous events committed in a different order by the "
+                "multi-process mediator than by the single-process mediator (%d of %d runs with ties; tie broken by the "
+                "order of pushes = arrival order of the candidate times), e.g. %s scheduler=%s cores=%d commit %d "
+                "handlers single %r multi %r; nothing else differs"
+                % (len(f11), len({c for c, _ in f11}), len(tie_runs), cases[ci]["cfg"],
+                   [x[2] for x in cases[ci].get("extra_set", []) if x[1] == "scheduler"], cases[ci]["cores"],
+                   i["commit"], i["single"], i["multi"]))
     if fails:
         ci, f = fails[0]
         C.violation(ctx, "oracle", rep(ci, {"message": f, "n_failing_cases": len(fails)}),
@@ -461,6 +556,10 @@ def run(ctx, cases_override=None):
             "pre-computed out-states drained in the trash loop (stage out_state_started)": stats["trash_in_oss"],
             "excluded_cases": [[cases[i]["cfg"], e] for i, e in exclusions][:20],
             "n_excluded": len(exclusions),
+            "runs with exactly coinciding candidate times (compared up to the order inside groups of simultaneous "
+            "events; not fed to the Coq correspondence, whose scheduler has a fixed tie rule)": len(tie_runs),
+            "of these with a swapped group (finding F11)": len({c for c, _ in f11}),
+            "F11 instances": [dict(i, cfg=cases[c]["cfg"], cores=cases[c]["cores"]) for c, i in f11][:6],
             "runs with pauses at the workers' synchronisation operations (after release / after send / before clear)":
                 sum(1 for c in cases if c.get("pause")),
             "pauses injected": sum(p["n"] for m_ in multi for p in m_.get("pauses", [])),
